@@ -1,5 +1,6 @@
 mod c01;
 mod c03;
+mod c14;
 mod plonkrun;
 mod rec;
 mod shapes;
@@ -22,6 +23,7 @@ fn main() {
     let code = match args[1].as_str() {
         "c01" => c01::main(rest),
         "c03" => c03::main(rest),
+        "c14" => c14::main(rest),
         "randshape" => {
             let seed: u64 = rest[0].parse().unwrap();
             println!("{}", serde_json::to_string(&shapes::random_shape(seed)).unwrap());
